@@ -12,7 +12,7 @@ static std::vector<int64_t> grid_values(int maxbits, bool dense)
   for (int64_t s = 0; s <= (dense ? 17 : 5); ++s) { add(s); add(-s); }
   for (int k = 1; k <= 62 && k <= maxbits; ++k) for (int dl = (dense ? -2 : -1); dl <= (dense ? 2 : 1); ++dl) { i128 p = ((i128)1 << k) + dl; add(p); add(-p); if (dense || k % 4 == 0) { add(3 * p); add(-3 * p); add(5 * ((i128)1 << k) + dl); add(-(5 * ((i128)1 << k) + dl)); } }
   for (int dl = 0; dl <= (dense ? 4 : 2); ++dl) { add((i128)MAXF - dl); add(-(i128)MAXF + dl); add((i128)MAXF / 2 + dl - 2); add(-((i128)MAXF / 2 + dl - 2)); add((i128)MAXF / 3 + dl - 2); add(-((i128)MAXF / 3 + dl - 2)); }
-  for (int64_t c : { g_dc.phi, g_dc.pidiv2, g_dc.pidiv4, (int64_t)65536 * 360, (int64_t)39322, (int64_t)28672, (int64_t)159744, (int64_t)46341, (int64_t)3037000499ll, (int64_t)3037000500ll, (int64_t)2147483647ll * 65536, (int64_t)16384 * 65536 }) { add(c); add(-c); add(c + 1); add(c - 1); }
+  for (int64_t c : { g_dc.phi, g_dc.pidiv2, g_dc.pidiv4, (int64_t)65536 * 360, (int64_t)39322, (int64_t)28672, (int64_t)159744, (int64_t)46341, (int64_t)3037000499ll, (int64_t)3037000500ll, (int64_t)759250124ll, (int64_t)1518500249ll, (int64_t)55027, (int64_t)38852, (int64_t)2147483647ll * 65536, (int64_t)16384 * 65536 }) { add(c); add(-c); add(c + 1); add(c - 1); }
   std::sort(v.begin(), v.end()); v.erase(std::unique(v.begin(), v.end()), v.end());
   return v;
 }
